@@ -20,7 +20,17 @@ def _line(b):
 
 def corpus():
     # + sizes the model cannot evaluate (65536+ array elements, blocks beyond 64 KiB): implementation against the reference encoder
-    return [_line(b) for b in boundary_bundles()] + genb.BIG_CASES
+    out = [_line(b) for b in boundary_bundles()] + genb.BIG_CASES
+    # blocks of a million bytes and more, in every position and with every block number (a fast path for large payloads must write the
+    # block's own fields): implementation only, against the reference encoder
+    import vlib
+    rng = vlib.Rng(202)
+    for n, num, ty in ((1000000, 2, 1), (1000001, 1, 1), (1048577, 7, 1), (1000000, 3, 192), (2 * 1048576 + 5, 1, 1)):
+        b = genb.rnd_bundle(rng, nblocks=1, crc_kind=rng.randrange(3))
+        blk = dict(type=ty, num=num, flags=0, crc=b["cs"][-1]["crc"], data=("DATA" if ty == 1 else "UNK", bytes((i * 13 + 1) % 256 for i in range(n))))
+        b["cs"] = [blk] + b["cs"] if ty != 1 else b["cs"][:-1] + [blk]
+        out.append("SPECX" + _line(b)[4:])
+    return out
 
 
 def cases(rng, tier):
@@ -30,6 +40,8 @@ def cases(rng, tier):
 def oracle(line, out, mode):
     if line.startswith("RTBIG "):
         return genb.judge_rtbig(line, out)
+    if line.startswith("SPECX "):
+        line = "SPEC " + line[6:]
     b = genb.parse_bundle_line(line[5:])
     ref, _ = genb.ref_bundle(b)
     if out != "OK " + xhex(ref):
@@ -38,7 +50,7 @@ def oracle(line, out, mode):
 
 
 def same(line, io, mo):
-    return line.startswith("RTBIG ")     # implementation only (the model prints NA); judged by the oracle against the reference encoder
+    return line.startswith(("RTBIG ", "SPECX "))     # implementation only (the model prints NA); judged by the oracle against the reference encoder
 
 
 classify = __import__("props.c01", fromlist=["x"]).classify
